@@ -271,13 +271,13 @@ PROPS["C25"] = dict(
 
 MEMO_NOTE = "Native bounded harness (harness/memo_native.py): the real Memoer with scripted send/receive. "
 PROPS["C20"] = dict(
-    contracts=["contracts.memo_rx", "contracts.memo_size"], harness="harness.memo_native:C20", level="other",
+    contracts=["contracts.memo_rx", "contracts.memo_size", "contracts.c20_rend"], harness="harness.memo_native:C20", level="other",
     technique="contract-based deductive verification (pyvc) of Memoer.fuse (unbounded), _serviceOneReceived and _serviceOnceRxGrams (bounded-symbolic); bounded runtime "
               "contract (segment with the real rend, deliver in many orders with duplicates to the real receive path) for rend/pick and whole deliveries",
     trusted_base=['EXT receive() returns any (gram, src); pick(gram) returns any (mid, vid, gn, gc) or raises MemoerError/ValueError/LookupError: the header parsing and the signature check inside pick/wiff/verify are NOT under contract (regex, base64 and pysodium: native tier only)', 'bytes.decode raises UnicodeDecodeError or returns DEC(bytes) (uninterpreted)'],
     assumptions=["_serviceOneReceived / _serviceOnceRxGrams: at most 2 memo ids in flight, each with at most 2 stored grams (symbolic ids, numbers, bodies)",
-                 "the sender side (rend: slice arithmetic, declared gram count) and pick are covered by the native tier only"],
-    explanation="PROVED for every header code x base64/base2 x any requested size: the size setter leaves room for at least one body byte in the zeroth and in every later gram (Sizes/Pairs read from the real class body). PROVED, unbounded: Memoer.fuse returns a memo only when every gram number below the count is present, and then exactly the stored bodies concatenated in numeric "
+                 "rend: base64 headers and four gram sizes per code (smallest admissible, +1, 200, 1000); binary (curt) headers, pick and signature verification are covered by the native tier only"],
+    explanation="PROVED for every header code x base64/base2 x any requested size: the size setter leaves room for at least one body byte in the zeroth and in every later gram (Sizes/Pairs read from the real class body). PROVED for a memo of ANY length (loop invariant; every zeroth code x 4 gram sizes, base64): Memoer.rend emits grams whose bodies are consecutive, non-empty slices of the memo covering it exactly once in order, each behind the right head (and before its signature), and the count announced in gram 0 is exactly the number of grams (contracts/c20_rend.py; cvc5 decides the nested-substring obligations). PROVED, unbounded: Memoer.fuse returns a memo only when every gram number below the count is present, and then exactly the stored bodies concatenated in numeric "
                 "order and decoded -- independent of arrival order and of extra stored numbers; MemoerError only for undecodable bytes. PROVED, bounded-symbolic: "
                 "_serviceOneReceived stores a gram only in an empty (memo id, number) slot and sets count / signer / source of a memo id only when absent (duplicates and "
                 "replays change nothing, other memo ids are untouched, invalid grams touch nothing); _serviceOnceRxGrams delivers each fused memo exactly once with the stored "
